@@ -517,6 +517,30 @@ fn run_c10(seed: u64, budget: usize) -> ! {
                 if got.5 != exp { record(format!("C10: printed grounded interpretation {:?} but the labelled values are {:?} (`{}`, sort mode {})", got.5, exp, t, sort)); continue 'round; }
             }
         }
+        // a parser that has already been used to build an ADF is sorted (again) and used again: the second ADF must read the
+        // facts through the NEW numbering (histories: build, sort, build; build, sort, sort, build)
+        {
+            let parser = AdfParser::default();
+            if parser.parse()(&text).is_err() { record(format!("C10: `{}` does not parse", text)); continue 'round; }
+            let _first = Adf::from_parser(&parser);
+            let _bio = adf_bdd::adfbiodivine::Adf::from_parser(&parser);
+            let hist = rng.below(4);
+            match hist { 0 => { parser.varsort_lexi(); } 1 => { parser.varsort_alphanum(); } 2 => { parser.varsort_lexi(); parser.varsort_alphanum(); } _ => { parser.varsort_alphanum(); parser.varsort_lexi(); } }
+            let mut adf = Adf::from_parser(&parser);
+            let n2 = adf.ac.len();
+            let names: Vec<String> = (0..n2).map(|i| adf.ordering.name(Var(i)).unwrap_or_default()).collect();
+            let lm = |v: &[Term]| -> LM { v.iter().enumerate().map(|(i, t)| (names[i].clone(), tv(t))).collect() };
+            let g = lm(&adf.grounded());
+            let st: BTreeSet<LM> = adf.stable().map(|v| lm(&v)).collect();
+            let co: BTreeSet<LM> = adf.complete().map(|v| lm(&v)).collect();
+            let bio = adf_bdd::adfbiodivine::Adf::from_parser(&parser);
+            let gb = lm(&bio.grounded());
+            checked += 1;
+            if g != base.0 || st != base.2 || co != base.1 || gb != base.0 {
+                record(format!("C10: a parser that was used, then sorted (history {}), gives different answers for `{}`: grounded {:?} / {:?} (biodivine) vs {:?}; complete {} vs {}; stable {} vs {}", hist, text, g, gb, base.0, co.len(), base.1.len(), st.len(), base.2.len()));
+                continue 'round;
+            }
+        }
         let r3 = match answers(&text3, rng.below(3)) { Ok(b) => b, Err(e) => { record(format!("C10: `{}` (renamed): {}", text3, e)); continue 'round; } };
         let back = |m: &LM| -> LM { m.iter().map(|(k, v)| (k[1..k.len() - 1].to_string(), *v)).collect() };
         if back(&r3.0) != base.0 || r3.1.iter().map(back).collect::<BTreeSet<LM>>() != base.1 || r3.2.iter().map(back).collect::<BTreeSet<LM>>() != base.2 {
